@@ -37,25 +37,26 @@ theorem configEqual_iff_eq (a b : Config) : configEqual a b = true ↔ a = b :=
 example : configEqual (runSetters [.ocspFile (some [97])] (Config.new []))
                       (runSetters [.ocspMem (.buf [97])] (Config.new [])) = false := by decide
 
+/-- both lists end together and corresponding elements are related -/
+def InStep {α : Type} (R : α → α → Prop) : List α → List α → Prop
+  | [], [] => True
+  | x :: xs, y :: ys => R x y ∧ InStep R xs ys
+  | _, _ => False
+
 /-- `tls_keypair_list_equal`: equal length and pairwise equal in all four members (induction on the lists) -/
 theorem keypairListEqual_iff (a b : List Keypair) :
     keypairListEqual a b = true ↔
-      List.Forall₂ (fun x y => x.certFile = y.certFile ∧ x.certMem = y.certMem ∧
-                               x.keyFile = y.keyFile ∧ x.keyMem = y.keyMem) a b := by
+      InStep (fun x y => x.certFile = y.certFile ∧ x.certMem = y.certMem ∧
+                         x.keyFile = y.keyFile ∧ x.keyMem = y.keyMem) a b := by
   rw [UsualProofs.C17.keypairListEqual_iff]
-  constructor
-  · intro h; subst h
-    induction a with
-    | nil => exact .nil
-    | cons x xs ih => exact .cons ⟨rfl, rfl, rfl, rfl⟩ ih
-  · intro h
-    induction h with
-    | nil => rfl
-    | cons hxy _ ih =>
-      rename_i x y
+  induction a generalizing b with
+  | nil => cases b <;> simp [InStep]
+  | cons x xs ih =>
+    cases b with
+    | nil => simp [InStep]
+    | cons y ys =>
       cases x; cases y
-      simp only [Keypair.mk.injEq, List.cons.injEq] at hxy ⊢
-      exact ⟨hxy, ih⟩
+      simp only [InStep, List.cons.injEq, Keypair.mk.injEq, ← ih ys]
 
 example : keypairListEqual [⟨none, .null 0, some [1], .buf []⟩, ⟨none, .null 0, none, .null 0⟩]
                            [⟨none, .null 0, some [1], .buf []⟩] = false := by decide
@@ -218,7 +219,7 @@ theorem clientRange_is_lowest_run (cp mn mx : Nat) (h : clientRange (verBits cp)
   have hc : verBits cp < 16 := Nat.mod_lt _ (by decide)
   have hk := rangeOk_all ⟨_, hc⟩
   simp only [rangeOk, h, Bool.and_eq_true, decide_eq_true_eq, List.all_eq_true, List.mem_range,
-    Bool.or_eq_true, Bool.not_eq_true', Bool.and_eq_false_imp, decide_eq_false_iff_not, beq_iff_eq] at hk
+    Bool.or_eq_true, Bool.not_eq_true', Bool.and_eq_false_imp, decide_eq_false_iff_not] at hk
   obtain ⟨⟨h1, h2⟩, h3⟩ := hk
   refine ⟨h1, h2, ?_, ?_, ?_⟩
   · intro v hv1 hv2
@@ -229,12 +230,12 @@ theorem clientRange_is_lowest_run (cp mn mx : Nat) (h : clientRange (verBits cp)
   · intro v hv
     have := (h3 v (by omega)).1.2
     rcases this with h' | h'
-    · exact absurd hv (by simpa using h')
+    · exact absurd hv h'
     · exact h'
   · intro hlt
     have := (h3 (mx + 1) hlt).2
     rcases this with h' | h'
-    · exact absurd rfl (by simpa using h')
+    · simp at h'
     · exact h'
 
 example : clientRange (verBits (2 + 8 + 16)) = (some 0, some 0) := by decide
@@ -289,7 +290,7 @@ theorem fifo_any_schedule (cap k : Nat) (sched : List Step) (a b : Bytes) :
     fun hp hi => complete_of_drained _ _ hinv.2 hp hi, run_rvs cap k sched _⟩
 
 example : (Duplex.run 4 3 [.write true 5, .read true 2, .write true 5, .read true 9, .write false 1, .close true,
-    .read true 1, .read false 4] (Duplex.init [1, 2, 3, 4, 5, 6] [9])).1.c2s.recvd = [1, 2, 3, 4] := by decide
+    .read true 1, .read false 4] (Duplex.init [1, 2, 3, 4, 5, 6, 7] [9])).1.c2s.recvd = [1, 2, 3, 4, 5, 6] := by decide
 example : (Duplex.run 4 3 [.write true 5, .read true 2, .close true, .read true 9, .read true 1]
     (Duplex.init [1, 2, 3] [])).2 = [3, 2, 0, 1, 0] := by decide
 
